@@ -105,6 +105,14 @@ def run_unit(spec_path, root, seed=None, canary=True, std_contracts=None, tag=""
     path = os.path.join(BUILD, "%s%s.rs" % (name, tag))
     open(path, "w").write(g.text)
     res.gen_path = path
+    canary_future = None
+    if canary:
+        import concurrent.futures as _cf
+        cpath = os.path.join(BUILD, "%s%s_canary.rs" % (name, tag))
+        ctext = g.text.replace("\n} // verus!", "\nproof fn vx_canary() ensures false {}\n} // verus!")
+        open(cpath, "w").write(ctext)
+        _pool = _cf.ThreadPoolExecutor(max_workers=1)
+        canary_future = _pool.submit(_verus, cpath, seed)
     cmd, rc, so, se, wall = _verus(path, seed)
     res.cmd = " ".join(cmd)
     res.raw = se
@@ -166,10 +174,7 @@ def run_unit(spec_path, root, seed=None, canary=True, std_contracts=None, tag=""
         res.status, res.reason = "undecided", "zero obligations generated (vacuous run)"
     # ---- vacuity canary: a false lemma must fail, and must be the only failure
     if canary and res.status == "ok":
-        cpath = os.path.join(BUILD, "%s%s_canary.rs" % (name, tag))
-        text = g.text.replace("\n} // verus!", "\nproof fn vx_canary() ensures false {}\n} // verus!")
-        open(cpath, "w").write(text)
-        _, rc2, so2, se2, _ = _verus(cpath, seed)
+        _, rc2, so2, se2, _ = canary_future.result()
         info2, diags2 = _parse(so2, se2)
         errs = [d for d in diags2 if not d.get("message", "").startswith("aborting")]
         res.canary_ok = (len(errs) == 1 and "postcondition" in errs[0].get("message", ""))
